@@ -213,8 +213,24 @@ def replay(ck, em, rec, Rt, floor, affs, label):
 
     # ---- Project / transform
     exp_w = arr(rec["w"])
-    mach = make_machine(em, m, T, sg, Rt, flo, upd)
     gs = [make_stats(em, *st) for st in stats]
+    # a machine with a past (round eight): two thirds of the machines were in ANOTHER state first, projected there,
+    # and are brought into the scenario's state afterwards -- in place through the public T / sigma arrays, or by
+    # assigning new arrays; the i-vector must be the posterior mean under the parameters the machine holds now
+    past = ck.replayed % 3
+    info["machine_history"] = ("fresh", "projected elsewhere, then T[...] = / sigma[...] = in place",
+                               "projected elsewhere, then new arrays assigned")[past]
+    if past == 0:
+        mach = make_machine(em, m, T, sg, Rt, flo, upd)
+    else:
+        mach = make_machine(em, m, T * 0.5 + 0.25, sg * 2.0 + 0.125, Rt, flo, upd)
+        for g in gs:
+            attempt("project (earlier state)", lambda: mach.project(g))
+        if past == 1:
+            mach.T[...] = T
+            mach.sigma[...] = sg
+        else:
+            mach.T, mach.sigma = np.array(T, dtype=float), np.array(sg, dtype=float)
     for i, g in enumerate(gs):
         ok, w = attempt("project(stats[%d])" % i, lambda: np.asarray(mach.project(g), dtype=float))
         if not ok:
